@@ -85,6 +85,60 @@ pub fn exhaustive_two_level(s: &mut Sess, tier: &str) {
     }
 }
 
+/// A sink that accepts at most `cap` bytes per write call (legal for io::Write).
+struct ChunkSink {
+    bytes: Vec<u8>,
+    cap: usize,
+}
+impl std::io::Write for ChunkSink {
+    fn write(&mut self, buf: &[u8]) -> std::io::Result<usize> {
+        let n = std::cmp::min(self.cap, buf.len());
+        self.bytes.extend_from_slice(&buf[..n]);
+        Ok(n)
+    }
+    fn flush(&mut self) -> std::io::Result<()> {
+        Ok(())
+    }
+}
+
+/// The round trip does not depend on the sink either: build through a writer that does short
+/// writes (and through a BufWriter), then open the bytes the sink ended up with.
+fn roundtrip_through_sinks(s: &mut Sess, items: &[Kv], r: &mut StdRng) {
+    let m = s.model(items);
+    for &cap in &[1usize, 3, 7] {
+        let res = guard(|| {
+            let mut b = fst::MapBuilder::new(ChunkSink { bytes: vec![], cap }).unwrap();
+            for (k, v) in items {
+                b.insert(k, *v).unwrap();
+            }
+            b.into_inner().unwrap().bytes
+        });
+        match res {
+            Ok(bytes) => {
+                let f = s.have(bytes, m, &format!("MapBuilder over a sink accepting {} bytes per write", cap));
+                s.open(f, "raw");
+                s.stream(f, *pick(r, &["raw", "map"]), &[], None, false, usize::MAX);
+            }
+            Err(p) => s.panic_ev("build-through-sink", &p),
+        }
+    }
+    let res = guard(|| {
+        let mut b = fst::MapBuilder::new(std::io::BufWriter::with_capacity(5, ChunkSink { bytes: vec![], cap: 2 })).unwrap();
+        for (k, v) in items {
+            b.insert(k, *v).unwrap();
+        }
+        b.into_inner().unwrap().into_inner().map_err(|_| ()).unwrap().bytes
+    });
+    match res {
+        Ok(bytes) => {
+            let f = s.have(bytes, m, "MapBuilder over BufWriter(5) over a 2-byte sink");
+            s.open(f, "raw");
+            s.stream(f, "raw", &[], None, false, usize::MAX);
+        }
+        Err(p) => s.panic_ev("build-through-bufwriter", &p),
+    }
+}
+
 pub fn c01(s: &mut Sess, seed: u64, tier: &str) {
     let mut r = rng(seed, 1);
     exhaustive_two_level(s, tier);
@@ -107,6 +161,9 @@ pub fn c01(s: &mut Sess, seed: u64, tier: &str) {
                         s.stream_conveniences(f);
                     }
                 }
+            }
+            if mi == 0 && items.len() <= 300 {
+                roundtrip_through_sinks(s, &items, &mut r);
             }
             // the same keys as a set
             if mi == 0 && !big {
